@@ -5,6 +5,8 @@ import NmVerif.Containers.VectorProofs
 import NmVerif.Containers.VectorLedger
 import NmVerif.Containers.StaticVector
 import NmVerif.Containers.StaticVectorProofs
+import NmVerif.Containers.SmallVector
+import NmVerif.Containers.SmallVectorProofs
 import NmVerif.Containers.Either
 import NmVerif.Containers.EitherProofs
 /-
@@ -194,6 +196,35 @@ theorem staticVector_stale_counterexample :
     let h : List (Op Int) := [.ctor 0, .push 0 1, .push 0 2, .push 0 3, .resize 0 1, .resize 0 3]
     sviewOf (run (svecImpl 4 (0 : Int)) World.empty h) 0 = some (3, [some 1, some 2, some 3]) ∧
     bviewOf (run (boundedSpec 4 (0 : Int)) World.empty h) 0 = some (3, [some 1, some 0, some 0]) := by decide
+
+/-! ### nmtools::small_vector over utl::either<utl::static_vector, utl::vector> -/
+
+/-- `small_vector<T,c>` holds exactly what `std::vector` holds — in static mode, in heap mode and across the switch at
+    `c` — after every history whose sized constructions stay below `c` (static, value-initialised), whose resizes
+    never exceed the current size and which does not push an aliasing argument (`smallOk`) -/
+theorem smallVector_refines (c : Nat) (zero : α) (h : List (Op α))
+    (hok : AllOk (stdSpec zero) (smallOk c) World.empty h) :
+    WRel (RSmall c) (run (smallImpl c zero) World.empty h) (run (stdSpec zero) World.empty h) :=
+  run_sim (small_sim c zero) h (wrel_empty _) hok
+
+example : AllOk (stdSpec (0 : Int)) (smallOk 4) World.empty
+    [.ctorN 0 3, .push 0 7, .push 0 8, .push 0 9, .ctorV 1 [1, 2, 3, 4, 5, 6], .assign 1 0, .assign 0 0, .resize 0 2,
+     .copy 2 0, .write 2 1 5, .destroy 0] := by
+  simp [AllOk, smallOk, step, stdSpec, World.empty, World.put, Op.target, listResize]
+
+def smviewOf (w : World (Small Int)) (k : Nat) : Option (List (Cell Int)) := (w.objs k).map Small.view
+
+/-- `small_vector(5)` (heap mode) holds indeterminate elements -/
+theorem smallVector_uninit_counterexample :
+    smviewOf (run (smallImpl 4 (0 : Int)) World.empty [.ctorN 0 5]) 0 = some [none, none, none, none, none] ∧
+    specOf (run (stdSpec 0) World.empty [.ctorN 0 5]) 0 = some [some 0, some 0, some 0, some 0, some 0] := by decide
+
+/-- growing past DIM and destroying: two blocks are never freed (the temporary of the static→dynamic switch and the
+    heap vector itself — `~either() {}`), and the heap vector was *assigned* into storage where none was constructed -/
+theorem smallVector_leak_counterexample :
+    let w := run (smallImpl 4 (0 : Int)) World.empty
+      [.ctor 0, .push 0 1, .push 0 2, .push 0 3, .push 0 4, .push 0 5, .destroy 0]
+    w.led.allocs = 5 ∧ w.led.freed.length = 3 ∧ w.led.lost.length = 2 ∧ w.led.events = [.uninitAssign] := by decide
 
 /-! ### utl::maybe, utl::either -/
 
